@@ -16,6 +16,7 @@ Oracles
   readback-value-exact  every value LASRead returns is the correctly rounded binary64 of the printed token
 """
 import io
+import re
 import logging
 from fractions import Fraction
 
@@ -439,6 +440,21 @@ def check(case, cc, fa=None, subset_obj=None):
                 dev('value-within-half-unit', 'token-not-a-number', 'row %d channel %s: %r' % (f, chans[i]['name'], tok))
                 rows_ok = False
                 continue
+            # the form of the token: floating channels in the requested decimal format, integer channels without decimals
+            if chans[i]['dtype'].startswith('float'):
+                if fmt.endswith('f'):
+                    nd = int(fmt[1:-1])
+                    form = r'^[-+]?\d+\.\d{%d}$' % nd if nd else r'^[-+]?\d+$'
+                elif fmt.endswith('e'):
+                    nd = int(fmt[1:-1])
+                    form = (r'^[-+]?\d\.\d{%d}e[-+]\d{2,3}$' % nd) if nd else r'^[-+]?\de[-+]\d{2,3}$'
+                else:
+                    form = None     # g: the number of digits depends on the value
+            else:
+                form = r'^[-+]?\d+$'
+            if form is not None and not re.match(form, tok) and tok.lower() not in ('nan', 'inf', '-inf'):
+                dev('text-structure', 'token-not-in-the-requested-format', 'row %d channel %s (%s): %r is not what format %r prints' % (
+                    f, chans[i]['name'], chans[i]['dtype'], tok, fmt if chans[i]['dtype'].startswith('float') else '.0f'))
             r, allowance = reference_reduce(chans[i]['values'][f], reduction, chans[i]['dtype'])
             if not chans[i]['dtype'].startswith('float') and r.denominator != 1:
                 mean_non_integer = True
